@@ -312,6 +312,20 @@ def judge(spec, mask, rec):
         return
     rec.check(np.array_equal(field.data, before), "input-unchanged", "the mask was modified")
     facts = check_result(spec, mask, list(call.result), rec)
+    # the returned emulsion belongs to the caller: what is done to it afterwards (here: droplets of later frames are
+    # collected in it, or it is emptied) must not show up in the results of later calls
+    try:
+        import droplets as _dr
+
+        res = call.result
+        if len(res) == 0:
+            res.append(_dr.SphericalDroplet(np.zeros(grid.dim) + 1.0, 1.0), copy=False)
+            rec.hit("scribbled-results")
+        elif len(res) >= 2 and mask.sum() % 3 == 0:
+            res.clear()
+            rec.hit("scribbled-results")
+    except Exception as e:  # noqa: BLE001
+        rec.harness_error("scribbling on a returned emulsion", e)
     nontrivial = facts["multi_piece"] or facts["winding"] or (facts["ncomp"] >= 2 and facts["dropped"] >= 1)
     rec.evaluated(nontrivial=nontrivial)
     if facts["multi_piece"]:
